@@ -153,7 +153,21 @@ fn mutate_string(rng: &mut Rng, s: &str, donors: &[String]) -> String {
     let steps = 1 + rng.below(3);
     for _ in 0..steps {
         let n = c.len();
-        match rng.below(12) {
+        match rng.below(13) {
+            12 => {
+                // give an atom (a number, a key name, a hash) children of its own
+                let s2: String = c.iter().collect();
+                let ends: Vec<usize> = s2
+                    .char_indices()
+                    .filter(|(i, ch)| (ch.is_ascii_alphanumeric()) && s2[i + ch.len_utf8()..].chars().next().map(|nx| nx == ',' || nx == ')').unwrap_or(false))
+                    .map(|(i, ch)| i + ch.len_utf8())
+                    .collect();
+                if !ends.is_empty() {
+                    let at = *rng.pick(&ends);
+                    let kids = *rng.pick(&["(pk(A),pk(B))", "(1)", "()", "(pk(A))", "(2,pk(A),pk(B))", "(older(1),after(1),pk(Z))"]);
+                    c = format!("{}{}{}", &s2[..at], kids, &s2[at..]).chars().collect();
+                }
+            }
             0 if n > 0 => {
                 let i = rng.below(n);
                 c.remove(i);
